@@ -146,9 +146,11 @@ def make_estimates(fr, frame="base_link"):
     return [make_object(e, frame, fr.get("ego"), fr["t"]) for e in fr["ests"]]
 
 
-def gen_frame(rng, index, n_gt=None, with_ego=True, uuid_prefix="g", fp_gt_prob=0.0):
+def gen_frame(rng, index, n_gt=None, with_ego=True, uuid_prefix="g", fp_gt_prob=0.0, unknown_est_prob=0.0):
     """fp_gt_prob > 0 (optional, default off = the historical stream): that share of the ground truths carries the FP label
-    ("false_positive": a place where NO detection is expected); an estimate generated next to it gets an ordinary target label."""
+    ("false_positive": a place where NO detection is expected); an estimate generated next to it gets an ordinary target label.
+    unknown_est_prob > 0 (optional, default off): that share of the estimates generated next to a ground truth is labelled "unknown"
+    (not a target label: with allow_matching_unknown it is matched to the target-labelled ground truth and counted under ITS label)."""
     n_gt = rng.randint(0, 7) if n_gt is None else n_gt
     gts, ests = [], []
     for j in range(n_gt):
@@ -164,6 +166,8 @@ def gen_frame(rng, index, n_gt=None, with_ego=True, uuid_prefix="g", fp_gt_prob=
             lab = g["label"] if rng.random() < 0.85 else rng.choice(ALL_LABELS)
             if lab == "false_positive":
                 lab = rng.choice(TARGETS)
+            if unknown_est_prob > 0 and rng.random() < unknown_est_prob:
+                lab = "unknown"
             ests.append({"label": lab, "pos": [g["pos"][0] + dx, g["pos"][1] + dy, g["pos"][2]], "size": list(g["size"]),
                          "yaw_cs": g["yaw_cs"] if rng.random() < 0.7 else rng.choice(CIRCLE), "conf": None, "uuid": f"t{j}"})
     for j in range(rng.randint(0, 2)):
